@@ -20,7 +20,7 @@ Sources ==
         << "|12 34 56| var p", "p open-bitstr 4 bits drop 8 bits var s close-bitstr", "s |f| bitstr-append var s2", "s bitstr-not drop",
            "p bitstr-not ! p", "s |0f| swap bitstr-append ! s", "p s bitstr-xor ! p", "s 8 bits", "p bitstr>hex print",
            \* the prelude leaves on the stack a slice that is the ONLY owner of its buffer within one interpreter (no variable,
-           \* no literal holds it), starts and ends off a byte boundary, with stale bits behind it: after a clone the two
+           \* no literal holds it): bits 0..12 of a 16-bit buffer, ending off a byte boundary with stale bits behind it: after a clone the two
            \* copies share it, the first one to append must copy, the last one is alone with the buffer
            "|ff| swap bitstr-append", "|0| swap bitstr-append", "dup |f| swap bitstr-append", "bitstr-not", "bitstr-not open-bitstr offset close-bitstr" >>
     [] Theme = "vars" ->
@@ -40,7 +40,7 @@ Sources ==
 Calls == {Sources[k] : k \in 1..Len(Sources)}
 
 Prelude ==
-  CASE Theme = "bits"   -> "|12 34 56| var p p open-bitstr 4 bits drop 8 bits var s close-bitstr s |f| bitstr-append var s2 [ 0x12 0x3f ] >bitstr open-bitstr 4 bits drop 8 bits close-bitstr"
+  CASE Theme = "bits"   -> "|12 34 56| var p p open-bitstr 4 bits drop 8 bits var s close-bitstr s |f| bitstr-append var s2 [ 0x12 0x3f ] >bitstr open-bitstr 12 bits close-bitstr"
     [] Theme = "vars"   -> "5 var v [ 1 2 ] var w { 1 \"a\" } var m"
     [] Theme = "defs"   -> ": f 1 ; : g f 2 * ; late h : u h 1 + ; : h 9 ; #( 3 const k #)"     \* u resolves h at its first call
     [] Theme = "cursor" -> "|aa bb| emit |01 02 03 04| open-bitstr u8"
